@@ -1,3 +1,3 @@
 import CobaVerif.Driver.Loop
--- stub: replaced when the C03 model exists
-def main : IO Unit := Coba.J.runLoop (fun _ => .error "C03 driver not implemented")
+import CobaVerif.Driver.C03
+def main : IO Unit := Coba.J.runLoop Coba.C03.Driver.handle
